@@ -1,7 +1,10 @@
 #!/bin/bash
-# Build the simulator test binary INTO the olla module (internal/ packages are
+# Build a simulator test binary INTO the olla module (internal/ packages are
 # not importable from outside) without touching /repo: -overlay + -modfile.
 # usage: build.sh <build-dir> <out-binary> <s1|s2>
+#   s1: /verif/sim  -> /repo/internal/verifsim   (netsim, whole stack)
+#   s2: /verif/sim2 -> /repo/internal/verifsim2  (tasksim) + /verif/yield -> /repo/internal/verifyield
+#       + component sources instrumented by cmd/yieldgen from the CURRENT /repo tree
 set -euo pipefail
 B=${1:-/verif/.build/default}
 OUT=${2:-$B/sim.test}
@@ -12,14 +15,50 @@ GO=/opt/veriftools/go1.26.8/bin/go
 [ -x "$GO" ] || GO=go1.26.8
 cp /repo/go.mod "$B/go.mod"
 cp /repo/go.sum "$B/go.sum"
-python3 - "$B" <<'PY'
+S2FILES="
+internal/adapter/balancer/priority.go
+internal/adapter/balancer/round_robin.go
+internal/adapter/balancer/least_connections.go
+internal/adapter/stats/collector.go
+internal/adapter/health/circuit_breaker.go
+internal/adapter/proxy/olla/service.go
+internal/adapter/unifier/circuit_breaker.go
+internal/adapter/registry/memory_registry.go
+internal/adapter/registry/unified_memory_registry.go
+internal/adapter/unifier/default_unifier.go
+internal/adapter/unifier/catalog_store.go
+internal/adapter/filter/glob_filter.go
+internal/adapter/discovery/service.go
+"
+if [ "$ENGINE" = s2 ]; then
+  rm -rf "$B/inst"; mkdir -p "$B/inst"
+  # porcupine for linearizability checks: exact cached version
+  grep -q anishathalye/porcupine "$B/go.mod" || echo 'require github.com/anishathalye/porcupine v1.3.0' >> "$B/go.mod"
+  files=""
+  for f in $S2FILES; do [ -f "/repo/$f" ] && files="$files /repo/$f"; done
+  (cd /verif/cmd/yieldgen && "$GO" run main.go "$B/inst" $files) > "$B/inst/sites.txt"
+fi
+python3 - "$B" "$ENGINE" <<'PY'
 import json,os,sys
-B=sys.argv[1]
+B,engine=sys.argv[1],sys.argv[2]
 rep={}
-for f in sorted(os.listdir('/verif/sim')):
-    if f.endswith('.go'):
-        rep['/repo/internal/verifsim/'+f]='/verif/sim/'+f
+if engine=='s1':
+    for f in sorted(os.listdir('/verif/sim')):
+        if f.endswith('.go'):
+            rep['/repo/internal/verifsim/'+f]='/verif/sim/'+f
+else:
+    for f in sorted(os.listdir('/verif/sim2')):
+        if f.endswith('.go'):
+            rep['/repo/internal/verifsim2/'+f]='/verif/sim2/'+f
+    for f in sorted(os.listdir('/verif/yield')):
+        if f.endswith('.go'):
+            rep['/repo/internal/verifyield/'+f]='/verif/yield/'+f
+    for f in sorted(os.listdir(B+'/inst')):
+        if f.endswith('.go'):
+            rep['/'+f.replace('__','/')]=B+'/inst/'+f
 json.dump({'Replace':rep},open(B+'/overlay.json','w'),indent=1)
 PY
 cd /repo
-"$GO" test -c -vet=off -tags verif -modfile="$B/go.mod" -overlay="$B/overlay.json" -o "$OUT" ./internal/verifsim/
+PKG=./internal/verifsim/
+[ "$ENGINE" = s2 ] && PKG=./internal/verifsim2/
+"$GO" test -c -vet=off -tags verif -modfile="$B/go.mod" -overlay="$B/overlay.json" -o "$OUT" $PKG
